@@ -1,4 +1,5 @@
 import NfpmModel.Sign
+import NfpmModel.Lemmas.ArLemmas
 /-
   C10  Requested signatures verify over exactly the bytes the verifier checks.
 
@@ -41,6 +42,27 @@ theorem debsign_message_is_stored_members (sign : Signer) (t : Bytes) (p : DebPa
       refine ⟨sig, rfl, h.symm, ?_⟩
       rw [← h]
       simp [debBaseMembers, debsignMessage]
+
+/-- **debsign, at the level of the shipped bytes**: write the members of a signed deb as the ar file deb.Package
+    produces; whoever reads that file back with an ar reader gets four members, the message that was signed is
+    the concatenation of the bodies of the first three exactly as stored, and the fourth is the signature under
+    the name `_gpg<type>` (guards: the data member name fits the 16-byte ar field, bodies below 10^10 bytes) -/
+theorem debsign_covers_shipped_bytes (sign : Signer) (t : Bytes) (p : DebParts) (ms : List ArMem) (mtime : Int)
+    (h : debsignPackage sign t p = .ok ms)
+    (hfit : ∀ m ∈ ms, Ar.MemberOK ⟨m.name, m.body⟩) :
+    ∃ sig, sign (debsignMessage p) = .ok sig ∧
+      ∃ rd, Ar.read (Ar.file mtime (ms.map (fun m => ⟨m.name, m.body⟩))) = some rd ∧ rd.length = 4 ∧
+        debsignMessage p = ((rd.take 3).map (·.body)).flatten ∧
+        rd.drop 3 = [⟨b!"_gpg" ++ debSigType t, sig⟩] := by
+  obtain ⟨sig, hs, hms, hmsg⟩ := debsign_message_is_stored_members sign t p ms h
+  refine ⟨sig, hs, ms.map (fun m => ⟨m.name, m.body⟩), ?_, ?_, ?_, ?_⟩
+  · apply Ar.read_file
+    intro m hm
+    obtain ⟨a, ha, rfl⟩ := List.mem_map.mp hm
+    exact hfit a ha
+  · rw [hms]; simp [debBaseMembers]
+  · rw [hmsg, hms]; simp [debBaseMembers]
+  · rw [hms]; simp [debBaseMembers]
 
 /-- with any verifier that accepts what the signer produced for a message, the stored signature
     verifies over exactly the stored members -/
